@@ -77,13 +77,13 @@ def build(tier):
                               reach=[("point in the union", "G_ssatX0")] if nx else [], **kw(nx, ny)))
             T.append(Task("%s/%s/add_disjunct/x%d" % (tt, pol, nx), u, "FN_s_add_disjunct", ["C09/powerset.h"], svars(), "FN_s_add_disjunct(&G_sx, &G_d)",
                           reach=[("point in the new disjunct only", "!G_ssatX0 && G_dsat0")], **kw(nx, ny)))
-        shapes2 = [(1, 1), (1, 2)] if tier == "quick" else [(1, 1), (1, 2), (2, 1)]
+        shapes2 = [(1, 1)] if tier == "quick" else [(1, 1), (1, 2)]      # a second disjunct in y: 15-20 minutes per query (thorough only)
         for (nx, ny) in shapes2:
             for (op, lhs, cast) in OPS2:
                 if op in HEAVY and not RUN_HEAVY: continue
                 T.append(Task("%s/%s/%s/x%dy%d" % (tt, pol, op, nx, ny), u, "FN_s_" + op, ["C09/powerset.h"], svars(), "%sFN_s_%s(%s&G_sx, %s&G_sy)" % (lhs, op, cast, cast),
                               reach=[("point in both unions", "G_ssatX0 && G_ssatY0"), ("point in x only", "G_ssatX0 && !G_ssatY0")], **kw(nx, ny)))
-        for (nx, ny) in ([(1, 2)] if tier == "quick" else [(1, 2), (2, 1), (0, 2)]):
+        for (nx, ny) in ([(1, 1)] if RUN_HEAVY else []):      # operator=: std::list assignment exceeds 40 GB even with one disjunct each (contract written, not discharged)
             T.append(Task("%s/%s/assign/x%dy%d" % (tt, pol, nx, ny), u, "FN_s_assign", ["C09/powerset.h"], svars(), "PS_T *rr = FN_s_assign(&G_sx, &G_sy)",
                           reach=[("source not omega-reduced", "!ps_omega_reduced(&G_sy)"), ("point in the source", "G_ssatY0")], **kw(nx, ny)))
         # copy on write: y's first disjunct shares its representation with x's first disjunct; mutating x must not change y
